@@ -49,45 +49,35 @@ func runScriptFrom(w *world.World, n *world.Node, acts []chainsim.Action) *world
 }
 
 func probe(args []string) {
-	w := mkWorld()
-	storageActors(w)
-	acts := []chainsim.Action{
-		addBlobber(w, "b0", "c3", 2),
-		addValidator(w, "v0", "c3"),
-		sLock(w, "c0", "b0", 4e8),
-		sCall(w, "owner", "kill_validator", "b0"),
-		sLock(w, "c1", "b0", 4e8),
-		sUnlock(w, "c0", "b0"),
-		sCall(w, "owner", "kill_blobber", "b0"),
-		sCall(w, "owner", "kill_blobber", "v0"),
-	}
-	n := w.GenesisNode()
-	prev := map[string]string{}
-	for i := range acts {
-		n = runScriptFrom(w, n, acts[i:i+1])
-		cur := map[string]string{}
-		for _, l := range world.Leaves(n.State) {
-			if world.Tap.IsAccount(l.Path) {
-				continue
+	w := world.New(world.Options{NumClients: 4, SC: vcSCOverrides(), Viper: map[string]any{"server_chain.view_change": true}})
+	m := makeDKGs(w, 3, 4, "g1")
+	acts := []chainsim.Action{addNode(w, "m0", false, "c3", 0.5, 2), addNode(w, "m1", false, "c3", 0, 2), addNode(w, "m2", false, "c3", 0, 2), addNode(w, "m3", false, "c3", 0, 2),
+		addNode(w, "s0", true, "c3", 0.25, 2), addNode(w, "s1", true, "c3", 0.5, 2)}
+	n := runScriptFrom(w, w.GenesisNode(), acts)
+	h := vcRound(w, m, "H", 0, true, false, honestTxs(w))
+	for i := 0; i < 24; i++ {
+		ls := world.Leaves(n.State)
+		x := &chainsim.Ctx{W: w, N: &chainsim.SNode{N: n, Leaves: ls}, Now: n.Block.CreationDate + 1, Rnd: n.Block.Round + 1}
+		main := h.Build(x)
+		before := h.Before(x)
+		w.Chain.SetupStateCache()
+		nd := w.Open(n, x.Rnd, x.Now, w.Miners[0], 1000+x.Rnd, "H")
+		for _, bs := range before {
+			bs.Time = x.Now
+			t := w.Txn(*bs)
+			_, err := w.Exec(nd, t)
+			nd.Block.Txns = nd.Txns
+			out := t.TransactionOutput
+			if len(out) > 100 {
+				out = out[:100]
 			}
-			k := world.Tap.KeyOf(l.Path)
-			cur[k] = string(l.Value)
-			if prev[k] != cur[k] && (len(k) < 64 || k[:8] != storageSC[:8] || true) {
-				if len(k) > 90 {
-					continue
-				}
-				fmt.Printf("      changed: %s (%d bytes)\n", k, len(l.Value))
-			}
+			fmt.Printf("    %s by %s: err=%v status=%d %s\n", t.FunctionName, w.ByID[t.ClientID].Name, err, t.Status, out)
 		}
-		for k := range prev {
-			if _, ok := cur[k]; !ok {
-				fmt.Printf("      deleted: %s\n", k)
-			}
-		}
-		prev = cur
-		lg := decodeLedger(world.Leaves(n.State), nil)
-		for k, p := range lg.Provs {
-			fmt.Printf("      prov %s type=%d node=%v pool=%v killed=%v shut=%v spdead=%v pools=%v\n", k[:8], p.Type, p.HasNode, p.HasPool, p.Killed, p.ShutDown, p.SPKilled, p.Pools)
-		}
+		main.Time = x.Now
+		t := w.Txn(*main)
+		_, err := w.Exec(nd, t)
+		w.CloseBlock(nd)
+		fmt.Printf("round %d payFees err=%v status=%d out=%.150s | %s\n", x.Rnd, err, t.Status, t.TransactionOutput, decodeVC(world.Leaves(nd.State)))
+		n = nd
 	}
 }
